@@ -9,6 +9,8 @@
 //	gotrans determinism <repo> <out.v>  keeper fields, package variables, map ranges, time/rand/goroutine uses (C19)
 //	gotrans ownerflow <repo> <out.v>    per Msg handler: how the object it acts on is selected (signer-keyed / id + owner
 //	                                    comparison / inner handler / not object-scoped / unknown) (C17); also ownerflow.json
+//	gotrans arithC14|arithC07|arithC13|arithC03 <repo> <out.v>
+//	                                    listed pure arithmetic functions as Gallina definitions over Base/Zdec.v (arith.go)
 package main
 
 import (
@@ -18,7 +20,7 @@ import (
 
 func main() {
 	if len(os.Args) < 4 {
-		fmt.Fprintln(os.Stderr, "usage: gotrans handlers|mintsites|blockers|determinism <repo> <out.v>")
+		fmt.Fprintln(os.Stderr, "usage: gotrans handlers|mintsites|blockers|determinism|ownerflow|arithCnn <repo> <out.v>")
 		os.Exit(2)
 	}
 	var err error
@@ -33,6 +35,8 @@ func main() {
 		err = genDeterminism(os.Args[2], os.Args[3])
 	case "ownerflow": // C17 owner-scoped part: object selection and signer flow of every handler, see ownerflow.go
 		err = genOwnerFlow(os.Args[2], os.Args[3])
+	case "arithC14", "arithC07", "arithC13", "arithC03": // arithmetic ties: listed Go functions -> Gallina over Base/Zdec.v, see arith.go
+		err = genArith(os.Args[1], os.Args[2], os.Args[3])
 	default:
 		err = fmt.Errorf("unknown table %q", os.Args[1])
 	}
